@@ -96,3 +96,39 @@ CHECKS["C19"] = {
     "level_text": "The property quantifies over programs, so the monitor generates programs, lets rustc run the derive macros on them and compares Iden::to_string / unquoted / quoted / prepare (three quote styles) / IdenStatic::as_str of every generated type with the documented naming rules and with the general quoting path.",
     "level_note": "Trusted: the Python naming model in c19_driver.py and rustc. Raw identifiers (r#type) and flatten fields named `s` are outside the generated domain.",
 }
+
+CHECKS["C05"] = {
+    "parts": [{"variant": "base"}, {"variant": "paren"}],
+    "level": "exploration",
+    "technique": "runtime monitor: per-dialect precedence/associativity parsers re-parse every rendered expression and compare with the built tree; SQLite evaluates rendering vs fully parenthesised reference over 64 operand rows; run with and without option-more-parentheses",
+    "rule": "trees: every (frame, filler) pair of depth 2 — frames = each binary operator of the dialect with the hole left/right, NOT, BETWEEN e/lo/hi, LIKE e/pattern with and without ESCAPE, IN e/item, IS [NOT] NULL, function argument, CAST, CASE when/then/else, tuple; fillers = each operator applied to columns — and every depth-3 chain over precedence-class representatives, per dialect (17 common operators + 20 Postgres + 7 SQLite + 2 MySQL extension/custom operators), plus random trees of depth <= 6; non-trivial = depth >= 3; distinct = distinct (rendered text, dialect); both builds (default and option-more-parentheses) are summed",
+    "assumptions": [
+        "SQLite precedence from lang_expr.html (and the engine itself evaluates); PostgreSQL from the 15 operator table incl. non-associativity and gram.y's b_expr/a_expr split for BETWEEN; MySQL from sql_yacc.yy's expr/bool_pri/predicate/bit_expr levels, with LIKE's right operand accepted at bit_expr level (looser than the real grammar where unsure)",
+        "IS / IS NOT with a non-keyword right operand is generated for SQLite only (MySQL and Postgres only have IS [NOT] NULL/TRUE/FALSE)",
+    ],
+    "design_ref": "DESIGN.md §5 C05, Appendix B",
+    "level_text": "Every rendering is parsed by an independent strict model of the target engine's expression grammar and must yield exactly the tree that was built (extra parentheses are never an error); for SQLite the engine additionally evaluates the rendering against a fully parenthesised reference on 64 rows. Exhaustive over operator pairs and sides because parenthesis dropping is decided pairwise.",
+    "level_note": "Trusted: the MySQL and Postgres precedence models in vcore/px.rs (no such engines available); for SQLite the engine closes the gap.",
+}
+
+CHECKS["C12"] = {
+    "parts": [{"variant": "base"}, {"variant": "hash"}],
+    "level": "exploration",
+    "technique": "runtime monitor: bitwise round-trip identity Value::from(x).unwrap::<T>() == x with hand-written expected variants, full (source variant x target type) extraction matrix, tuple arity/order, as_null/dummy_value discriminant checks; run with and without hashable-value",
+    "rule": "values: exhaustive bool/i8/u8/i16/u16/char; boundaries + 1e6 random for 32/64-bit integers; f32 structured + 2^22 random bit patterns (quick) / all 2^32 (thorough); f64 structured + random; strings, bytes, Cow/&str, JSON, chrono, time, Decimal, BigDecimal, Uuid (+fmt types), IpNetwork, MacAddress, Vector, Vec<T> arrays, Option<T> of each; 278 x 137 extraction matrix; tuples of arity 1..12; non-trivial = every (type, value) pair; distinct = distinct (type, value bits), capped per shard (the cap is reported)",
+    "assumptions": ["identity is bitwise (to_bits for floats, component-wise for date/time, (bigint, scale) for BigDecimal)", "hand-built heterogeneous arrays are outside the domain"],
+    "design_ref": "DESIGN.md §5 C12",
+    "level_text": "The conversion round trip is executed for every value of the small types and large samples of the others and compared bitwise; every mismatched (variant, type) extraction must fail. Exploration is the right level for macro-generated per-type impls: each impl is exercised exhaustively or densely.",
+    "level_note": "Trusted: the per-type expected-variant table in c12.rs (exhaustive matches make a new variant a build error).",
+}
+
+CHECKS["C18"] = {
+    "parts": [{"variant": "hash"}],
+    "level": "exploration",
+    "technique": "runtime monitor: Eq/Hash laws checked on all pairs (and triples) of a 515-value pool against an independent three-valued payload-equality oracle, under three hashers, plus HashSet/HashMap class counts",
+    "rule": "pool of 515 values (every variant and ArrayType, NULLs, NaNs with different payloads/signs, +-0, infinities, subnormals, nested arrays, JSON with different key orders, vectors) built twice independently; all 265,225 ordered pairs; transitivity on a 2M triple sample + all same-variant triples (quick) / all 515^3 triples (thorough); 1573 value tuples; non-trivial = pairs of the same variant",
+    "assumptions": ["bitwise-equal payloads must be equal; numerically-equal-but-bitwise-different payloads (+0/-0, NaN payloads, JSON 1 vs 1.0, equal instants under different offsets, decimals of different scale) may compare either way as long as the laws and hash agreement hold"],
+    "design_ref": "DESIGN.md §5 C18",
+    "level_text": "Equivalence-relation laws, variant separation, payload agreement and hash agreement are executed for every pair of a pool constructed to contain every special case the hand-written match must handle; exhaustive over the pool, which is the finite space the property names.",
+    "level_note": "Trusted: the independent oracle in c18.rs. Only the pool's values are decided.",
+}
